@@ -91,12 +91,14 @@ def assemble(phi, terms):
     return sp.csr_array(M), b
 
 
-def make_problem(rng, cls, nmax):
+def make_problem(rng, cls, nmax, keep_open=None):
     faces, meta = gen.gen_grid(rng, cls, nmin=1, nmax=nmax)
     g = Geom(cls, faces)
     m = gen.build_mesh(pf, cls, faces)
     capable = [k for k in range(g.nd) if gen.periodic_ok(cls, k) and abs(g.w[k][0] - g.w[k][-1]) <= 1e-12 * g.w[k][0]]
     per = [k for k in capable if rng.random() < 0.25]
+    if keep_open is not None:
+        per = [k for k in per if keep_open not in SIDES[k]]
     for _ in range(50):
         spec = gen.gen_bc_spec(rng, g, periodic_axes=per, lams=(1.0, -1.0, 2.5, 0.4))
         if gen.bc_nonsingular(g, spec):
@@ -112,11 +114,30 @@ def ghost_rows_index(g):
 
 
 def run_system(case, rng, cls):
-    faces, meta, g, m, spec = make_problem(rng, cls, case.get('nmax', 4))
+    faces, meta, g, m, spec = make_problem(rng, cls, case.get('nmax', 4), case.get('edit_side'))
     cov, maxerr, bad = {}, {}, []
     BC = gen.make_bc(pf, m, g, spec)
     vals, _ = gen.cell_field(rng, g.dims, 'random')
     phi = pf.CellVariable(m, vals.copy(), BC)
+    edited = None
+    if case.get('edit_side') or rng.random() < 0.5:
+        # boundary conditions changed on ONE side after the variable exists (values untouched): "the variable's boundary
+        # equations" are those of its current BCs
+        ke = int(rng.integers(0, g.nd))
+        je = int(rng.integers(0, 2))
+        if case.get('edit_side'):
+            ke, je = [(k_, j_) for k_ in range(g.nd) for j_ in (0, 1) if SIDES[k_][j_] == case['edit_side']][0]
+        if ke not in spec['periodic']:
+            edited = SIDES[ke][je]
+            phi.apply_BCs()                  # clean state: no pending modification flags from construction
+            fe = getattr(phi.BCs, edited)
+            if rng.random() < 0.5:
+                fe.c = np.asarray(fe.c) + 0.5
+            elif np.all(np.asarray(fe.a) == 0):
+                fe.fixedGradient(0.3)
+            else:
+                fe.fixedValue(-0.4)
+            cov['side_edit:' + edited] = 1
     terms = draw_terms(rng, m, g, phi)
     Ms, bs = assemble(phi, terms)
     kinds = sorted(k for _, k in terms)
@@ -167,6 +188,9 @@ def run_system(case, rng, cls):
         bad.append(('residual-stored', 'values left in the variable (with re-imposed boundary values) violate the interior equations (normalised %.3g)' % e))
     # default path equals solveMatrixPDE on the hand-assembled system
     phi2 = pf.CellVariable(m, vals.copy(), gen.make_bc(pf, m, g, spec))
+    if edited is not None:
+        for nm in ('a', 'b', 'c'):
+            setattr(getattr(phi2.BCs, edited), nm, np.asarray(getattr(getattr(phi.BCs, edited), nm)).copy())
     terms2 = [t for t, _ in terms]
     with np.errstate(all='ignore'):
         pf.solvePDE(phi2, terms2)
@@ -293,6 +317,11 @@ def plan(tier, seed):
             for rep in range(n):
                 cases.append({'cls': cls, 'kind': kind, 'seed': [seed, 4, ci, i], 'nmax': 4 if NDIM[cls] < 3 else 3})
                 i += 1
+        for k_ in range(NDIM[cls]):          # directed: the BCs of each single side edited after the variable exists
+            for side in SIDES[k_]:
+                for rep in range(3 if tier == 'quick' else 20):
+                    cases.append({'cls': cls, 'kind': 'system', 'edit_side': side, 'seed': [seed, 4, ci, i], 'nmax': 4 if NDIM[cls] < 3 else 3})
+                    i += 1
         step = 11 if NDIM[cls] == 3 else 30
         for j in range(0, len(cases), step):
             chunks.append(cases[j:j + step])
@@ -306,7 +335,7 @@ def floors(agg, tier):
             if agg['cov'].get('kind:%s:%s' % (kind, cls), 0) < need:
                 out.append('kind:%s:%s < %d' % (kind, cls, need))
     for k in ('termkind:pair:transient', 'termkind:M:-diffusion', 'termkind:M:upwind', 'termkind:M:central', 'termkind:v:constsource',
-              'termkind:v:tvd', 'termkind:pair:generic', 'default_path_checked'):
+              'termkind:v:tvd', 'termkind:pair:generic', 'default_path_checked', 'side_edit:left', 'side_edit:right', 'side_edit:bottom', 'side_edit:top', 'side_edit:back', 'side_edit:front'):
         if agg['cov'].get(k, 0) < 5:
             out.append('%s < 5' % k)
     return out
